@@ -133,6 +133,7 @@ theorem ramp_term_exact {F : Type} [Field F] [LinearOrder F] [IsStrictOrderedRin
     hence any monotone final rounding that sends `[0, 1+u]` into `[0, 1]` (round-to-nearest-even does: `1+u` is
     the midpoint above 1 and 1 is even) gives a result in `[0, 1]`.  This is the precise content of the source
     comment "slightly boost a by 2^-22 … just enough": with `epsf = 0` the same computation allows `1 + 5(m-1)u`.
+    The expression `t2` is linked to the transcription by `bounded_rounded_excursion`.
     NOT covered: a proof that IEEE binary32 operations satisfy the standard model (taken from the literature),
     and the continuation / ramp steps in rounded arithmetic (the ramp is clamped explicitly; the continuation
     feeds the excursion search again); searched on the implementation (S4 incl. the directed `boost` sweep). -/
@@ -151,6 +152,30 @@ theorem bounded_rounded_stdmodel {F : Type} [Field F] [LinearOrder F] [IsStrictO
   refine ⟨lo, up, hr0 _ lo, hr1 _ ?_⟩
   have : (m - 1) * u ≤ 1 * u := mul_le_mul_of_nonneg_right (by linarith) (le_of_lt hu0)
   linarith
+
+/-- **bounded_rounded_excursion** (link of `bounded_rounded_stdmodel` to the transcription).  Instantiate the
+    generic transcription with ROUNDED arithmetic (`roundedOps R epsf`: + - * / return exact·(1+δ), |δ| ≤ u; negation,
+    comparisons, constants exact).  For a positive excursion with peak `1 < m ≤ 2` (`m - 1` computed exactly:
+    Sterbenz) and a sample `0 ≤ x ≤ m`, what the excursion branch of `opus_pcm_soft_clip` computes,
+    `nl (coefA m xi) x`, is `y·(1+δ)` with `0 ≤ y ≤ 1 + (m-1)u` and `|δ| ≤ u`: the pre-rounding value of the last
+    addition is inside the enclosure, so a correctly rounded (monotone, `rnd(1+u) ≤ 1`) last addition gives ≤ 1.
+    (The negative excursion is the mirror image; not stated separately.) -/
+theorem bounded_rounded_excursion {F : Type} [Field F] [LinearOrder F] [IsStrictOrderedRing F] {u : F}
+    (R : RoundedArith F u) (epsf m xi x : F) (hu0 : 0 < u) (hu1 : u ≤ 1 / 16)
+    (heps : 4 * u ≤ epsf * (1 - u) * (1 - 3 * u)) (heps0 : 0 ≤ epsf) (heps1 : epsf ≤ 1 / 16)
+    (hxi : 0 < xi) (hsub : R.rsub m 1 = m - 1) (hm1 : 1 < m) (hm2 : m ≤ 2) (hx0 : 0 ≤ x) (hxm : x ≤ m) :
+    ∃ y d : F, |d| ≤ u ∧ 0 ≤ y ∧ y ≤ 1 + (m - 1) * u ∧
+      @nl F (roundedOps R epsf) (@coefA F (roundedOps R epsf) m xi) x = y * (1 + d) := by
+  obtain ⟨d1, d2, d3, d4, d5, d6, d7, h1, h2, h3, h4, h5, h6, h7, e⟩ := nl_coefA_rounded R epsf m xi x hxi hsub
+  exact ⟨_, d7, h7,
+    rounded_excursion_lower u epsf m x d1 d2 d3 d4 d5 d6 hu0 hu1 heps0 heps1 h1 h2 h3 h4 h5 h6 hm1 hm2 hx0 hxm,
+    rounded_excursion_upper u epsf m x d1 d2 d3 d4 d5 d6 hu0 hu1 heps (by linarith) h1 h2 h3 h4 h5 h6 hm1 hm2 hx0 hxm, e⟩
+
+/-- exact arithmetic is a rounded arithmetic (δ = 0): the hypotheses are satisfiable -/
+example : ∃ R : RoundedArith ℚ (1 / 2 ^ 24), R.rsub (3 / 2) 1 = 3 / 2 - 1 :=
+  ⟨{ radd := (· + ·), rsub := (· - ·), rmul := (· * ·), rdiv := (· / ·),
+     add_spec := fun a b => ⟨0, by norm_num, by ring⟩, mul_spec := fun a b => ⟨0, by norm_num, by ring⟩,
+     div_spec := fun a b => ⟨0, by norm_num, by ring⟩ }, rfl⟩
 
 /-- the code's constants: u = 2^-24 and `2.4e-7f` = 0x3480D959 = 8444249·2^-45 satisfy the hypotheses
     (the boost is 4.0265 units of round-off; 4 + 16u would already do) -/
